@@ -5,8 +5,8 @@ CONSTANTS
     A = 4
     MinPS = 2
     CheckPS = TRUE
-    MaxN = 127
-    HomMax = 33
+    MaxN = 100
+    HomMax = 21
     Qs = {5, 7}
     MaxShares = 4
 INVARIANTS PaillierInverts PaillierHomomorphic
